@@ -36,6 +36,9 @@ TOL = 1e-12
 
 
 # ------------------------------------------------------------------ serialisation
+SHARED_CELL_ARGS = {}      # caller-owned unit-cell arrays reused across tile_unit_cell calls (see evaluate of the tile jobs)
+
+
 def ser_z(positions, edges, crossing, S=None):
     positions = np.asarray(positions, dtype=float).reshape(-1, 2)
     edges = np.asarray(edges).reshape(-1, 2)
@@ -467,7 +470,14 @@ def evaluate_tilings(ctx, cells, sizes, label, census_budget):
         res.hist["tile/multigraph-cell"] = res.hist.get("tile/multigraph-cell", 0) + bool(multigraph)
         res.hist["tile/corner-crossing-cell"] = res.hist.get("tile/corner-crossing-cell", 0) + bool(len(E) and np.any((C[:, 0] != 0) & (C[:, 1] != 0)))
         try:
-            lat = eg.tile_unit_cell(P.copy(), E.copy(), C.copy(), [nx, ny])
+            # the same unit-cell arrays are tiled again and again (1..4 x 1..4): hand over ONE set of caller-owned arrays
+            # per cell and check that a call leaves them unchanged, so that later tilings see the same cell
+            own = SHARED_CELL_ARGS.setdefault(digest([P.tolist(), E.tolist(), C.tolist()]), (P.copy(), E.copy(), C.copy()))
+            lat = eg.tile_unit_cell(own[0], own[1], own[2], [nx, ny])
+            if not (np.array_equal(own[0], P) and np.array_equal(own[1], E) and np.array_equal(own[2], C)):
+                res.violation("tile-modifies-its-arguments", f"tile_unit_cell(points, edges, crossing, [{nx},{ny}]) changed the arrays passed to it "
+                              f"(max |delta points| = {float(np.max(np.abs(own[0] - P))) if len(P) else 0:.3g}): a later tiling of the same cell is then a tiling of another cell", case)
+                own[0][...] = P; own[1][...] = E; own[2][...] = C
             if nx == ny:
                 lat_s = eg.tile_unit_cell(P.copy(), E.copy(), C.copy(), nx)
                 if not (np.array_equal(lat_s.edges.indices, lat.edges.indices) and np.array_equal(lat_s.edges.crossing, lat.edges.crossing)
